@@ -83,7 +83,7 @@ class C13(Prop):
             kind, vals = tc.gen_narrow_feature(rng, many)
             yield {"stream": "numeric", "kind": kind, "n_bins": rng.choice([130, 200, 255]) if many else rng.randint(2, 12),
                    "method": rng.choice(["quantile", "uniform"]) if many else rng.choice(["quantile", "uniform", "sqrt", "sturges"]), "feature": vals}
-        for pooled in ([10, 20, 30, 100, 110] if tier == "quick" else [10, 20, 30, 40, 100, 110, 200, 1000, 1010]):
+        for pooled in ([10, 20, 30, 100, 110, 1000, 1230] if tier == "quick" else [10, 20, 30, 40, 100, 110, 200, 1000, 1010, 1230, 2500, 12345]):
             # 'other k' with k a multiple of ten (trailing zeros of the formatted count), k = pooled
             nb = rng.choice([2, 3])
             keep = nb - 1
